@@ -4,150 +4,70 @@
     exactly those files below the destination, with their contents, and the
     directories needed to hold them. *)
 From Coq Require Import List NArith Bool Arith Lia Permutation.
-From GL Require Import model.Zip proofs.C20_Paths proofs.C20_Unzip.
+From GL Require Import model.Zip model.legacy.ZipLegacy proofs.C20_Paths proofs.C20_Unzip.
 Import ListNotations.
 
 (** * Well-formed trees and source directories *)
 
-Definition wf_file (f : list seg * N) : Prop :=
-  fst f <> [] /\ Forall normal (fst f) /\ Forall slash_free (fst f).
+Definition wf_file (f : list seg * N) : Prop := fst f <> [] /\ Forall normal (fst f).
 
-(** distinct paths, ordinary slash-free names, and no file where another
-    file's path needs a directory *)
+(** distinct paths, ordinary names, and no file where another file's path
+    needs a directory *)
 Definition wf_tree (t : tree) : Prop :=
   NoDup (map fst t) /\
   (forall f, In f t -> wf_file f) /\
   (forall f g, In f t -> In g t -> ~ strict_prefix (fst f) (fst g)).
 
-(** a cleanly spelled source directory: "/a/b" or "a/b", ordinary names *)
-Definition good_src (s : rpath) : Prop :=
-  exists segs, segs <> [] /\ Forall normal segs /\ (s = s_empty :: segs \/ s = segs).
+(** any spelling of the source directory except "" and "/" (ensureDirName
+    turns "/" into "", and Walk("") fails) *)
+Definition valid_src (src : rpath) : Prop := is_empty_str (ensure_dir_name src) = false.
 
 Definition depth1 (r : list seg) : bool := match r with [_] => true | _ => false end.
 
-(** the files ZipFolder is specified to take *)
+(** the files ZipFolder is specified to take: the filter sees the cleaned
+    path of the file, [Clean(srcDir + "/" + relative path)] *)
 Definition selected (src : rpath) (filt : option (rpath -> bool)) (recursive : bool)
            (f : list seg * N) : bool :=
-  match filt with Some t => t (src ++ fst f) | None => true end && (recursive || depth1 (fst f)).
+  match filt with Some t => t (clean_str (src ++ fst f)) | None => true end
+  && (recursive || depth1 (fst f)).
 
 Definition plain_entry (f : list seg * N) : entry := mkE (s_empty :: fst f) false (snd f).
 
 (** * ZipFolder *)
 
-Lemma good_src_snoc : forall s x, good_src s -> normal x -> good_src (s ++ [x]).
+Lemma walk_path_spec : forall r s, is_empty_str s = false -> r <> [] -> Forall normal r ->
+  walk_path s r = clean_str (s ++ r).
 Proof.
-  intros s x [segs [Hne [Hn Hs]]] Hx. exists (segs ++ [x]). split; [|split].
-  - intros E. apply app_eq_nil in E. destruct E; discriminate.
-  - apply Forall_app. split; [exact Hn|]. constructor; [exact Hx|constructor].
-  - destruct Hs as [Hs|Hs]; subst s; [left|right]; reflexivity.
+  unfold walk_path. induction r as [|x r IH]; intros s Hs Hne Hr; [congruence|].
+  cbn [fold_left]. inversion Hr as [|? ? Hx Hr']; subst. destruct r as [|y r].
+  - reflexivity.
+  - rewrite IH; [|apply clean_str_not_empty|discriminate|exact Hr'].
+    rewrite clean_str_app_normal.
+    + rewrite <- app_assoc. reflexivity.
+    + destruct s as [|a [|b s]]; try reflexivity. cbn in Hs. discriminate.
+    + exact Hr'.
 Qed.
 
-Lemma good_src_nonempty : forall s, good_src s -> s <> [] /\ is_empty_str s = false.
-Proof.
-  intros s [segs [Hne [Hn Hs]]]. destruct segs as [|x segs]; [congruence|].
-  destruct Hs as [Hs|Hs]; subst s.
-  - split; [discriminate|reflexivity].
-  - split; [discriminate|]. destruct segs; [|reflexivity].
-    inversion Hn as [|? ? Hx _]; subst. apply normal_tests in Hx. cbn. tauto.
-Qed.
-
-Lemma clean_str_good_snoc : forall s x, good_src s -> normal x -> clean_str (s ++ [x]) = s ++ [x].
-Proof.
-  intros s x [segs [Hne [Hn Hs]]] Hx.
-  assert (Hn' : Forall normal (segs ++ [x])).
-  { apply Forall_app. split; [exact Hn|]. constructor; [exact Hx|constructor]. }
-  destruct Hs as [Hs|Hs]; subst s.
-  - assert (Hr : is_rooted ((s_empty :: segs) ++ [x]) = true).
-    { destruct segs; [congruence|]. reflexivity. }
-    rewrite clean_str_rooted by exact Hr. unfold rclean. cbn [app fold_left]. rewrite rstep_empty.
-    rewrite (fold_rstep_normal (segs ++ [x]) []) by exact Hn'. cbn [app].
-    unfold rooted_str, craw. cbn [c_rooted c_segs].
-    destruct (segs ++ [x]) eqn:E; [|reflexivity].
-    apply app_eq_nil in E. destruct E; discriminate.
-  - unfold clean_str, clean.
-    assert (Hr : is_rooted (segs ++ [x]) = false).
-    { destruct segs as [|y segs]; [congruence|]. inversion Hn as [|? ? Hy _]; subst.
-      apply normal_tests in Hy. cbn [app is_rooted]. destruct (segs ++ [x]); tauto. }
-    rewrite Hr. rewrite fold_cstep_normal by exact Hn'. cbn [fst snd app].
-    unfold craw. cbn [c_rooted c_up c_segs repeat app].
-    destruct (segs ++ [x]) eqn:E; [|reflexivity].
-    apply app_eq_nil in E. destruct E; discriminate.
-Qed.
-
-Lemma walk_path_good : forall r s, good_src s -> Forall normal r -> walk_path s r = s ++ r.
-Proof.
-  unfold walk_path. induction r as [|x r IH]; intros s Hs Hr; cbn [fold_left].
-  - symmetry. apply app_nil_r.
-  - inversion Hr as [|? ? Hx Hr']; subst.
-    rewrite clean_str_good_snoc by assumption.
-    rewrite IH; [|apply good_src_snoc; assumption|exact Hr'].
-    rewrite <- app_assoc. reflexivity.
-Qed.
-
-Lemma removelast_snoc : forall (l : list seg) x, removelast (l ++ [x]) = l.
-Proof. intros l x. apply removelast_last. Qed.
-
-Lemma ensure_dir_name_dir : forall (l : list seg), l <> [] ->
-  ensure_dir_name (l ++ [s_empty]) = l.
-Proof.
-  intros l H. destruct l as [|y ys]; [congruence|].
-  unfold ensure_dir_name. cbn [app]. destruct (ys ++ [s_empty]) eqn:E.
-  - apply app_eq_nil in E. destruct E; discriminate.
-  - rewrite <- E. change (y :: ys ++ [s_empty]) with ((y :: ys) ++ [s_empty]).
-    rewrite last_last. cbn [seg_eqb s_empty]. apply removelast_last.
-Qed.
-
-Lemma depth1_removelast : forall (r : list seg), r <> [] -> (removelast r = [] <-> depth1 r = true).
-Proof.
-  intros r H. destruct r as [|x [|y r]]; [congruence| |].
-  - cbn. tauto.
-  - cbn [depth1]. split; [|discriminate]. intros E. cbn [removelast] in E. discriminate.
-Qed.
-
-Lemma nonrec_test : forall s r, s <> [] -> r <> [] ->
-  path_eqb (ensure_dir_name (split_dir (s ++ r))) s = depth1 r.
-Proof.
-  intros s r Hs Hr. unfold split_dir. rewrite removelast_app by exact Hr.
-  rewrite ensure_dir_name_dir.
-  2:{ intros E. apply app_eq_nil in E. tauto. }
-  destruct (depth1 r) eqn:Ed.
-  - apply depth1_removelast in Ed; [|exact Hr]. rewrite Ed, app_nil_r. apply path_eqb_refl.
-  - apply path_eqb_neq. intros E. rewrite <- (app_nil_r s) in E at 2. apply app_inv_head in E.
-    apply depth1_removelast in E; [|exact Hr]. congruence.
-Qed.
-
-Lemma entry_name_slice : forall s r, s <> [] -> r <> [] -> Forall slash_free r ->
-  (length (render (s ++ r)) <? length (render s)) = false /\
-  bsplit (skipn (length (render s)) (render (s ++ r))) = s_empty :: r.
-Proof.
-  intros s r Hs Hr Hf. rewrite render_app by assumption. split.
-  - apply Nat.ltb_ge. rewrite app_length. lia.
-  - rewrite skipn_app, skipn_all, Nat.sub_diag. cbn [app skipn bsplit].
-    rewrite N.eqb_refl. rewrite bsplit_render by assumption. reflexivity.
-Qed.
-
-Lemma zip_select_spec : forall s filt recursive f, good_src s -> wf_file f ->
+Lemma zip_select_spec : forall s filt recursive f, is_empty_str s = false -> wf_file f ->
   zip_select s filt recursive f =
   if selected s filt recursive f then SelEntry (plain_entry f) else SelSkip.
 Proof.
-  intros s filt recursive [r c] Hs [Hne [Hn Hf]]. cbn [fst snd] in *.
-  destruct (good_src_nonempty s Hs) as [Hsn _].
+  intros s filt recursive [r c] Hs [Hne Hn]. cbn [fst snd] in *.
   unfold zip_select, selected. cbn [fst snd].
-  rewrite walk_path_good by assumption.
-  destruct (match filt with Some t => t (s ++ r) | None => true end) eqn:Ef.
-  - assert (E1 : match filt with Some t => negb (t (s ++ r)) | None => false end = false).
+  rewrite walk_path_spec by assumption.
+  destruct (match filt with Some t => t (clean_str (s ++ r)) | None => true end) eqn:Ef.
+  - assert (E1 : match filt with Some t => negb (t (clean_str (s ++ r))) | None => false end = false).
     { destruct filt; [rewrite Ef; reflexivity|reflexivity]. }
-    rewrite E1. rewrite nonrec_test by assumption. cbn [andb].
-    destruct recursive; cbn [negb andb orb].
-    + destruct (entry_name_slice s r Hsn Hne Hf) as [E2 E3]. rewrite E2, E3. reflexivity.
-    + destruct (depth1 r); cbn [negb]; [|reflexivity].
-      destruct (entry_name_slice s r Hsn Hne Hf) as [E2 E3]. rewrite E2, E3. reflexivity.
-  - assert (E1 : match filt with Some t => negb (t (s ++ r)) | None => false end = true).
+    rewrite E1. rewrite rel_below by assumption. rewrite dir_of_names by assumption.
+    fold (depth1 r). cbn [andb].
+    destruct recursive; cbn [negb andb orb]; [reflexivity|].
+    destruct (depth1 r); reflexivity.
+  - assert (E1 : match filt with Some t => negb (t (clean_str (s ++ r))) | None => false end = true).
     { destruct filt; [rewrite Ef; reflexivity|discriminate]. }
     rewrite E1. reflexivity.
 Qed.
 
-Lemma zip_collect_spec : forall s filt recursive l, good_src s ->
+Lemma zip_collect_spec : forall s filt recursive l, is_empty_str s = false ->
   (forall f, In f l -> wf_file f) ->
   zip_collect (map (zip_select s filt recursive) l) =
   ZOk (map plain_entry (filter (selected s filt recursive) l)).
@@ -181,12 +101,12 @@ Proof.
 Qed.
 
 Theorem zip_folder_spec : forall src filt recursive t,
-  good_src (ensure_dir_name src) -> wf_tree t ->
+  valid_src src -> wf_tree t ->
   zip_folder src filt recursive t =
   ZOk (map plain_entry (filter (selected (ensure_dir_name src) filt recursive) (walk_sort t))).
 Proof.
   intros src filt recursive t Hs [_ [Hwf _]]. unfold zip_folder.
-  destruct (good_src_nonempty _ Hs) as [_ He]. rewrite He.
+  unfold valid_src in Hs. rewrite Hs.
   apply zip_collect_spec; [exact Hs|]. intros f Hf. apply Hwf. apply walk_sort_In. exact Hf.
 Qed.
 
@@ -495,7 +415,7 @@ Proof.
 Qed.
 
 Theorem zip_roundtrip : forall src filt recursive t dest,
-  good_src (ensure_dir_name src) -> wf_tree t -> is_rooted dest = true ->
+  valid_src src -> wf_tree t -> is_rooted dest = true ->
   exists ar fs',
     zip_folder src filt recursive t = ZOk ar /\
     unzip dest ar [] = (fs', UOk) /\
@@ -519,7 +439,7 @@ Proof.
   - unfold files. apply NoDup_map_fst_filter.
     eapply Permutation_NoDup; [|exact Hnd]. apply Permutation_map. apply walk_sort_perm.
   - intros f g Hf Hg. apply Hpf; [apply Hin in Hf|apply Hin in Hg]; tauto.
-  - intros f Hf. apply Hin in Hf. destruct (Hwf f (proj1 Hf)) as [H1 [H2 _]]. tauto.
+  - intros f Hf. apply Hin in Hf. apply (Hwf f (proj1 Hf)).
   - exists (map plain_entry files), fs'. split; [exact Hz|]. split; [exact Hrun|].
     rewrite resolve_rooted by exact Hd. split.
     + intros p c. rewrite Hfiles. split.
@@ -532,15 +452,20 @@ Proof.
         right. exists r, c, x, y. split; [apply Hin; tauto|exact H3].
 Qed.
 
-(** * A source directory that is not cleanly spelled loses files
+(** * Before commit de6fafe a source directory that was not cleanly spelled lost files
 
-    (observation, not covered by the round-trip theorem): with srcDir "./s"
-    the walk reports "s/file", and [path[len(srcDir):]] cuts the name. *)
+    (defect D12): with srcDir "./s" the walk reports "s/file", and
+    [path[len(srcDir):]] cut the name; the repaired code names the entries
+    through filepath.Rel. *)
 Definition b_s : seg := [115]%N.                               (* "s" *)
 Definition b_file : seg := [102; 105; 108; 101]%N.              (* "file" *)
 Definition b_d : seg := [100]%N.                               (* "d" *)
 
-Theorem zip_unclean_src_mangles_names :
+Theorem legacy_zip_unclean_src_mangles_names :
+  legacy_zip_folder [s_dot; b_s] None true [([b_file], 1%N); ([b_d; b_file], 2%N)] =
+  ZOk [mkE [s_empty; b_file] false 2%N; mkE [[105; 108; 101]%N] false 1%N] /\
+  legacy_zip_folder [s_dot; b_s] None false [([b_file], 1%N); ([b_d; b_file], 2%N)] = ZOk [] /\
+  legacy_zip_folder [s_dot; s_dot; b_s] None true [([b_d], 1%N)] = ZPanic /\
   zip_folder [s_dot; b_s] None true [([b_file], 1%N); ([b_d; b_file], 2%N)] =
-  ZOk [mkE [s_empty; b_file] false 2%N; mkE [[105; 108; 101]%N] false 1%N].
-Proof. vm_compute. reflexivity. Qed.
+  ZOk [mkE [s_empty; b_d; b_file] false 2%N; mkE [s_empty; b_file] false 1%N].
+Proof. vm_compute. repeat split; reflexivity. Qed.
